@@ -290,7 +290,61 @@ func concScenarios() []*engine.Scenario {
 	return []*engine.Scenario{concurrent(true), concurrent(false)}
 }
 
+// udpKeyConfigs: key lists with the same secret under several ciphers, duplicated pairs and mixed
+// ciphers on UDP listeners, both formats: the configuration-level part of C03 ("some key of the
+// list, whatever the list order or cipher mix").
+func udpKeyConfigs() []srv.Cfg {
+	var out []srv.Cfg
+	udp := []srv.Ln{{Type: "udp", Addr: "127.0.0.1:9000"}}
+	for _, ks := range [][]srv.Key{keys(1, 4), keys(4, 1), keys(0, 1, 4, 3), keys(3, 4, 1, 0), keys(0, 2, 1), keys(4)} {
+		out = append(out, srv.Cfg{Services: []srv.Svc{{Listeners: udp, Keys: ks}}})
+		var leg []srv.Legacy
+		for _, k := range ks {
+			leg = append(leg, srv.Legacy{Key: k, Port: 9005})
+		}
+		out = append(out, srv.Cfg{Legacy: leg})
+	}
+	// two services, the second one repeating a secret of the first under another cipher
+	out = append(out, srv.Cfg{Services: []srv.Svc{
+		{Listeners: udp, Keys: keys(1, 0)},
+		{Listeners: []srv.Ln{{Type: "udp", Addr: "127.0.0.1:9001"}}, Keys: keys(4, 3)},
+	}})
+	return out
+}
+
+// udpOnly keeps the findings about datagrams.
+func udpOnly(sc *engine.Scenario) *engine.Scenario {
+	inner := sc.Check
+	sc.Name = "config-keylist-udp"
+	sc.Check = func(x *vrt.Exec) (string, bool, []*engine.Finding) {
+		obs, nt, fs := inner(x)
+		var keep []*engine.Finding
+		for _, f := range fs {
+			if strings.Contains(f.Sig, "{udp}") || strings.HasPrefix(f.Sig, "crash{") || strings.HasPrefix(f.Sig, "deadlock") || strings.HasPrefix(f.Sig, "valid-config-rejected") {
+				keep = append(keep, f)
+			}
+		}
+		return obs, nt, keep
+	}
+	return sc
+}
+
 func init() {
+	hk.Register("C03main", func(ctx *engine.Ctx) {
+		for i, c := range udpKeyConfigs() {
+			if ctx.Mine(int64(i)) {
+				ctx.RunCase("config-keylist-udp", "E", udpOnly(scenario(c)), c, nil)
+			}
+		}
+	})
+	hk.Replayers["C03main"] = func(ctx *engine.Ctx, rp engine.Replay) []*engine.Finding {
+		var c srv.Cfg
+		if err := json.Unmarshal(rp.Input, &c); err != nil {
+			return []*engine.Finding{{Sig: "BROKEN:bad-input", Msg: err.Error()}}
+		}
+		rp.Choices = nil
+		return engine.ReplayCase("config-keylist-udp", udpOnly(scenario(c)), rp)
+	}
 	hk.Register("C01main", func(ctx *engine.Ctx) {
 		for i, c := range keyListConfigs() {
 			if ctx.Mine(int64(i)) {
